@@ -8,6 +8,9 @@ from .common import bootstrap, fresh_dir, make_config, names, slurm_group
 from .h_common import SHAPES, classify, cluster_status, enabled_events, fire, setup_world, write_config
 
 
+_DUMP = bool(os.environ.get("VERIF_DUMP"))  # (read at import: virtual processes get their own environment)
+
+
 def _closure(N, blockers, selected):
     """Reflexive-transitive dependants closure (reference, 8 lines)."""
     out = set(selected)
@@ -375,8 +378,9 @@ def h_resubmit(shapes=("chain3", "fork3"), bss=(2,), flagsets=None, incomplete=T
         """One injected error inside resubmit-jobs.  C13's last clause, read literally: the failed command must not leave
         the submission with results erased (rows of the first run pruned from the result files) AND no way forward.  A way
         forward = the documented commands (try-submit-jobs while incomplete, resubmit-jobs once complete) lead to a complete
-        submission with one successful entry per job.  Not fault positions: the final role release itself (no implementation can
-        release the role when the release fails) and the submission round (C11's subject; fail-stop refusal accepted there)."""
+        submission with one successful entry per job.  Not fault positions (recognised by the effect sequence, not by function
+        names): everything from the round's first scheduler command on - the submission round (C11's subject; fail-stop refusal
+        accepted there) and the final role release that follows it."""
         import errno
         import sys
         import filelock
@@ -390,24 +394,17 @@ def h_resubmit(shapes=("chain3", "fork3"), bss=(2,), flagsets=None, incomplete=T
         def in_cmd(w_):
             return w_.cur is not None and "resubmit-jobs" in w_.cur.name
 
-        def releasing_role():
-            """The final role release, or inside the submission round (JobSubmitter.submit_jobs): an error raised inside a
-            round is C11's subject, where fail-stop refusal of later rounds is the accepted behaviour."""
-            f = sys._getframe(2)
-            while f is not None:
-                if f.f_code.co_name in ("demote_from_submitter", "_demote_from_submitter"):
-                    return True
-                if f.f_code.co_name == "submit_jobs" and f.f_code.co_filename.endswith("job_submitter.py"):
-                    return True
-                f = f.f_back
-            return False
-
         def hook(w_, k, detail):
-            if st["injected"] or not in_cmd(w_):
+            if _DUMP and in_cmd(w_):
+                st.setdefault("seq", []).append("%s:%s" % (k, os.path.basename(str(detail.get("path", "")))[:40]))
+            if in_cmd(w_) and k in ("squeue", "sbatch", "exec"):
+                # the submission round has begun (its first act is the status query): an error raised inside a round is C11's
+                # subject, where fail-stop refusal is accepted; the final role release follows the round, so it is no fault
+                # position either (no implementation can release the role when the release itself fails)
+                st["round_started"] = True
+            if st["injected"] or not in_cmd(w_) or st.get("round_started"):
                 return
             if (kind, k) not in (("edquot", "write_open"), ("lock_timeout", "lock_acquire")):
-                return
-            if releasing_role():
                 return
             if kind == "edquot" and os.path.basename(str(detail.get("path"))) in STATE_FILES:
                 # JADE's designed answer to an error while the shared state files are being written is fail-stop
@@ -445,6 +442,8 @@ def h_resubmit(shapes=("chain3", "fork3"), bss=(2,), flagsets=None, incomplete=T
         r = w.user(["jade", "resubmit-jobs", out] + fl)
         w.effect_hook = None
         w.sbatch_policy = None
+        if _DUMP:
+            ex.note("SEQ " + ";".join(st.get("seq", [])))
         if not st["injected"]:
             return False  # fault-free resubmissions are the subject of the other obligations
         info = dict(fault=kind, at=st.get("effect"), detail=st.get("detail"), where=st.get("where"), flags=fl, cmd_rc=r.rc)
@@ -470,7 +469,7 @@ def h_resubmit(shapes=("chain3", "fork3"), bss=(2,), flagsets=None, incomplete=T
             return False, "still incomplete results after 5 resubmissions"
 
         forward, why = recover()
-        if os.environ.get("VERIF_DUMP") and not forward:
+        if _DUMP and not forward:
             for e in w.log[-40:]:
                 print("   LOG", {k: (str(v)[:300]) for k, v in e.items() if k not in ("t", "host")}, file=sys.stderr)
         if not forward:
